@@ -203,16 +203,16 @@ Proof.
       assert (Hne2 : rfc4648 rest <> []) by (apply rfc4648_nonempty; intros E0; rewrite E0, len_nil in Hlr; lia).
       assert (Hgt : (length (rfc4648 p) <=? 76)%nat = false).
       { apply Nat.leb_gt. rewrite Hcode, app_length, Hl76. destruct (rfc4648 rest); [congruence|cbn; lia]. }
-      rewrite Hgt. rewrite Hcode at 1 2.
-      rewrite (firstn_app_exact _ _ 76 Hl76), (skipn_app_exact _ _ 76 Hl76).
+      rewrite Hgt.
+      assert (Hre : (firstn 76 (rfc4648 p) ++ [lb; 10] ++ wrap76 fuel lb (skipn 76 (rfc4648 p))) ++ tail
+                    = rfc4648 chunk ++ [lb; 10] ++ (wrap76 fuel lb (rfc4648 rest) ++ tail)).
+      { rewrite Hcode, (firstn_app_exact _ _ 76 Hl76), (skipn_app_exact _ _ 76 Hl76).
+        rewrite <- !app_assoc. reflexivity. }
+      rewrite Hre.
       destruct (Z.ltb_spec (4 * ((len p + 2) / 3)) 76) as [Hlt|_]; [exfalso; lia|].
       assert (Hchk : negb ((0 <=? ipos) && (ipos + 76 <=? dlen)) = false).
       { apply negb_false_iff, andb_true_iff. split; [apply Z.leb_le|apply Z.leb_le]; lia. }
       rewrite Hchk.
-      assert (Hre : (rfc4648 chunk ++ [lb; 10] ++ wrap76 fuel lb (rfc4648 rest)) ++ tail
-                    = rfc4648 chunk ++ [lb; 10] ++ (wrap76 fuel lb (rfc4648 rest) ++ tail)).
-      { rewrite <- !app_assoc. reflexivity. }
-      rewrite Hre.
       assert (Hfn : firstn (Z.to_nat 76) (rfc4648 chunk ++ [lb; 10] ++ (wrap76 fuel lb (rfc4648 rest) ++ tail)) = rfc4648 chunk).
       { apply firstn_app_exact. exact Hl76. }
       rewrite Hfn.
